@@ -3,10 +3,12 @@ package table
 import (
 	"fmt"
 	"testing"
+	"time"
 
 	"github.com/weedbox/pokertable"
 
 	"verif/harness/backend"
+	"verif/harness/choose"
 	"verif/harness/ev"
 	"verif/harness/run"
 	"verif/harness/sim"
@@ -252,12 +254,91 @@ func c01Body(c *run.Ctx) {
 		l.checkHand(s, h)
 		l.checkSum(fmt.Sprintf("after hand %d", h.N), h.After)
 	}
+	// a re-buy issued from another goroutine at the moment the hand opens (the gate fires on
+	// its own goroutine): whichever side of the open it lands on, the chips must arrive
+	type racer struct {
+		id     string
+		chips  int64
+		before int64
+		done   chan error
+	}
+	var rc *racer
+	settleRacer := func(s *sim.Sim, h *sim.Hand) {
+		if rc == nil {
+			return
+		}
+		r := rc
+		rc = nil
+		var err error
+		select {
+		case err = <-r.done:
+		case <-time.After(s.StepWait):
+			c.Failf("C01.racing-rebuy-stuck", "a re-buy of %s issued while hand %d was opening did not return", r.id, len(s.Hands))
+		}
+		c.Ch.Note("  racing re-buy %s +%d -> %v", r.id, r.chips, err)
+		if err != nil {
+			c.Failf("C01.racing-rebuy-refused", "a re-buy of seated player %s issued while a hand was opening was refused: %v", r.id, err)
+		}
+		l.in += r.chips
+		s.Label("rebuy_racing_with_open")
+		at := int64(-1)
+		if h != nil && h.Opened != nil {
+			if p := sim.FindPlayer(h.Opened, r.id); p != nil {
+				at = p.Bankroll
+			}
+		}
+		switch at {
+		case r.before + r.chips:
+			s.Label("racing_rebuy_landed_before_open")
+		case r.before:
+			// landed after the opened snapshot: an in-hand top-up
+			l.topups[r.id] += r.chips
+			s.Label("racing_rebuy_landed_after_open")
+		case -1:
+			// no hand opened: the chips must simply be there
+			if p := sim.FindPlayer(s.Now(), r.id); p == nil || p.Bankroll != r.before+r.chips {
+				c.Failf("C01.racing-rebuy-lost", "%s re-bought %d (had %d) while a hand was being opened; now: %s", r.id, r.chips, r.before, tableSummary(s.Now()))
+			}
+		default:
+			c.Failf("C01.racing-rebuy-lost", "%s re-bought %d (had %d) while hand %d was opening; the opened snapshot shows %d", r.id, r.chips, r.before, len(s.Hands), at)
+		}
+	}
+	o.BeforeHand = func(s *sim.Sim, n int) bool {
+		if s.GateArmed == nil || !choose.Chance(c.Ch, "racer", 15) {
+			return true
+		}
+		now := s.Now()
+		ids := sim.AllPlayers(now)
+		if len(ids) == 0 {
+			return true
+		}
+		id := ids[c.Ch.Int("racer.who", 0, len(ids)-1)]
+		p := sim.FindPlayer(now, id)
+		r := &racer{id: id, chips: int64(1 + c.Ch.Int("racer.chips", 0, 500)), before: p.Bankroll, done: make(chan error, 1)}
+		delay := time.Duration(c.Ch.Int("racer.delay", 0, 60)) * 5 * time.Microsecond
+		rc = r
+		api := s.API
+		go func() {
+			time.Sleep(delay)
+			r.done <- api.PlayerReserve(pokertable.JoinPlayer{PlayerID: r.id, RedeemChips: r.chips, Seat: -1})
+		}()
+		return true
+	}
+	prevAfter := o.AfterHand
+	o.AfterHand = func(s *sim.Sim, h *sim.Hand) {
+		settleRacer(s, h) // no-op when the opened hook already did it
+		prevAfter(s, h)
+	}
 	hooks := sim.Hooks{Opened: func(s *sim.Sim, h *sim.Hand) {
 		// top-ups accepted before the hand opened are part of the bankroll at open
 		l.topups = map[string]int64{}
 		l.gone = map[string]bool{}
+		settleRacer(s, h)
 	}}
 	s := RunHistory(c, o, hooks, func(s *sim.Sim, op *sim.OpRec) { l.onOp(s, op) })
+	if l != nil {
+		settleRacer(s, nil)
+	}
 	if l != nil && s.Stall == "" {
 		l.checkSum("end of case", s.Now())
 	}
